@@ -167,6 +167,8 @@ def check_pair(st, pchoice, cchoice, rank, only=None):
         for chain in (2, 3, 4):
             if only and only != (move, chain):
                 continue
+            if _TIER[0] == "quick" and pchoice and ((move in ("override_twin", "override_model") and chain == 4) or (chain == 3 and move not in ("none", "add", "override_model"))):
+                continue
             label = {"parent_kw": [(k, i) for k, i in pchoice], "child_kw": [(k, i) for k, i in cchoice], "move": move, "chain": chain}
             layers = [PARENT_PROPS]
             base = parent
@@ -200,7 +202,7 @@ def check_pair(st, pchoice, cchoice, rank, only=None):
                 st.violation("serialize-raised:" + type(exc).__name__, "%s: %r" % (label, exc), label, rank=rank)
             # Python serialization: the module for the child must execute, define an equal child and keep it a subclass of an
             # equal parent (checked for a rotating subset of declarations: exec is the expensive part)
-            if (hash((move, chain, len(pchoice), len(cchoice))) + rank) % 3 == 0 or not pchoice:
+            if (hash((move, chain, len(pchoice), len(cchoice))) + rank) % (5 if _TIER[0] == "quick" else 2) == 0 or not pchoice:
                 try:
                     text = serialize_python(child)
                     gns = {"__builtins__": __builtins__}
@@ -366,7 +368,11 @@ def run_history(st, decl_idx, first, depth):
         st.sample({"history_declaration": decl_idx, "ops": [o.name for o in ops], "depth": depth, "states_under_first_op": states})
 
 
+_TIER = ["quick"]
+
+
 def plan(tier, seed):
+    _TIER[0] = tier  # workers are forked after plan() and inherit it
     big = 2
     items = []
     p1, p2 = kw_choices(1), kw_choices(big, full=(tier == "thorough"))
